@@ -2,7 +2,6 @@ package output
 
 import (
 	"bytes"
-	"fmt"
 	"io"
 	"strings"
 	"sync"
@@ -108,17 +107,18 @@ func (pw *prefixWriter) writeLine(line string) error {
 		*pw.prefixed.counter++
 	}
 
-	if _, err := fmt.Fprint(pw.writer, "["); err != nil {
-		return nil
-	}
-
 	color := PrefixColorSequence[idx%uint(len(PrefixColorSequence))]
-	pw.prefixed.logger.FOutf(pw.writer, color, pw.prefix)
 
-	if _, err := fmt.Fprint(pw.writer, "] "); err != nil {
-		return nil
-	}
+	// Assemble the whole line first and emit it with a single write: writers
+	// that do not take the mutex (interactive tasks, Task's own log lines)
+	// must not be able to land between the prefix and the line.
+	var out bytes.Buffer
+	out.Grow(len(pw.prefix) + len(line) + 3)
+	out.WriteString("[")
+	pw.prefixed.logger.FOutf(&out, color, pw.prefix)
+	out.WriteString("] ")
+	out.WriteString(line)
 
-	_, err := fmt.Fprint(pw.writer, line)
+	_, err := pw.writer.Write(out.Bytes())
 	return err
 }
